@@ -18,7 +18,10 @@ from .. import common as C
 from .. import forms as F
 from .. import gen_graph as G
 from ..oracles import sep_paths as O
-from .c04 import rand_admg
+from . import c04 as C4
+from .c04 import rand_admg, structured_query, with_names
+
+_V, _vint = C4._V, C4._vint
 
 PROP = "C15"
 RULE = ("structured `policy_shape` ADMGs (a pair with a topologically late singleton separator and an early 2-3 node separator, "
@@ -26,8 +29,15 @@ RULE = ("structured `policy_shape` ADMGs (a pair with a topologically late singl
         "sets of different sizes; random ADMGs (0-6 nodes, bidirected chains, isolated nodes, random insertion order) x max_conditions in "
         "{None, 0, 1, 2, 3, 4} x policy in {topological (default), _len_lex} x return_all in {False, True}; powerset on random "
         "lists x start x stop. A case is non-trivial when the graph has >=3 nodes, at least one pair is separable and at "
-        "least one pair is not (within the limit).")
+        "least one pair is not (within the limit).  Added by sepG (gap review round 5; tags shape / max_min_sep / n_min_seps / "
+        "k_vs_n / disconnected / names / form_verbose count them): the structured shapes of C04 (colliders opened by a conditioned "
+        "descendant 2-5 steps below, long forks, bidirected chains of 3-5 colliders, fully conditioned districts, sparse graphs; "
+        "<= 8 nodes, 9-10 with a small limit); `parallel_routes`: 3-6 routes between one pair (mediators, common causes, mixed, "
+        "two-step routes), minimum separator of size 3..6, unique or one of up to 8, limits m-1 / m / m+1 / none; limits n-3, n-2, "
+        "n-1 on random graphs; disconnected graphs (isolated nodes only, a bidirected piece beside a chain, random pieces: "
+        "seeded/C15d); verbose=True; the mixed-name and counterfactual-node name tables of C04.")
 ASSUMPTIONS = [
+    "node names: as in C04 (order-preserving tables A00.., mixed lengths / case, counterfactual-variable nodes); runtime clause. With counterfactual nodes and _len_lex + return_all the kept set is compared by size only (_len_lex joins BASE names, two worlds of one base tie). The counterfactual-node stream found the TypeError in minimal() fixed by repo 82be1e9",
     "argument FORMS (harness/forms.py; chosen deterministically per case, stored in the case, tagged form_*): the default policy omitted / policy=None / an explicit get_topological_policy(graph); max_conditions=None omitted or explicit; return_all and verbose omitted / False / None (both are typed bool | None); graph positional or by keyword; the graph built through every public constructor of NxMixedGraph (only the insertion-order preserving ones where the compared value depends on the topological order); powerset's iterable as list / tuple / dict keys / generator / iterator / map, start and stop positional / keyword / omitted at their defaults. Independence of the form is a runtime clause decided by correspondence + oracle",
     "'true separation in the graph': the theorems ci_sound/ci_complete/ci_unique/ci_minimum/ci_total are parametric in any "
     "separation test that is symmetric and set-valued in C (GoodTest); ci_exact instantiates them with the C04 model and, "
@@ -75,7 +85,7 @@ def _slots(case):
         return sl
     order_compared = case["policy"] == "topological" and case["all"]
     sl = {"ctor": F.CTORS_SAME_ORDER if order_compared else F.CTORS, "call": ("positional", "keyword"),
-          "verbose": ("omitted", "false", "none")}
+          "verbose": ("omitted", "false", "none", "true")}
     if case["policy"] == "topological":
         sl["policy"] = ("omitted", "none", "explicit")
     if case["k"] is None:
@@ -124,6 +134,54 @@ def policy_shape(rng):
     return {"nodes": nodes, "di": di, "bi": bi}
 
 
+def parallel_routes(rng):
+    """(sepG, gap review G15-2) a pair whose MINIMUM separator is large and - with two-step routes - far from unique:
+    m = 3..6 routes between a and b, each a mediator chain a -> x -> b, a common cause a <- x -> b, a mixed route
+    a <-> x -> b, or a two-step route a -> x -> y -> b (either inner node cuts it: 2^r minimum separators); every minimum
+    separator takes one inner node of every route, so its size is m.  Returns (graph, m)."""
+    B = C4._B()
+    a, b = B.new(), B.new()
+    m = rng.choice([3, 3, 3, 4, 4, 5, 5, 6])
+    two_step = 0
+    for _ in range(m):
+        x = B.new()
+        r = rng.random()
+        if r < 0.2 and B.n + (m - two_step) <= 9 and two_step < 3:
+            y = B.new()
+            B.di += [[a, x], [x, y], [y, b]]
+            two_step += 1
+        elif r < 0.6:
+            B.di += [[a, x], [x, b]]
+        elif r < 0.85:
+            B.di += [[x, a], [x, b]]
+        else:
+            B.bi.append([a, x])
+            B.di.append([x, b])
+    if rng.random() < 0.3 and B.n < 9:
+        C4._noise(rng, B, [], k=1)
+    g, _, _, _, _ = B.finish(rng, a, b, [], "parallel_routes")
+    return g, m
+
+
+def disconnected_graph(rng):
+    """(seeded/C15d) graphs with no edge between their pieces: a graph of isolated nodes, a bidirected-only piece next to a
+    chain, an isolated node next to anything, two random pieces"""
+    r = rng.random()
+    if r < 0.15:
+        n = rng.randint(2, 5)
+        nodes = list(range(n))
+        rng.shuffle(nodes)
+        return {"nodes": nodes, "di": [], "bi": []}
+    if r < 0.35:
+        lab = list(range(rng.choice([5, 6])))
+        rng.shuffle(lab)
+        g = {"nodes": [], "di": [[lab[0], lab[1]], [lab[1], lab[2]]], "bi": [[lab[3], lab[4]]]}
+        if len(lab) == 6:
+            g["nodes"] = [lab[5]]
+        return g
+    return C4.shape_disconnected(rng)[0]
+
+
 def cases(rng: random.Random, tier: str):
     return [F.assign(c, _slots(c)) for c in _cases(rng, tier)]
 
@@ -131,10 +189,37 @@ def cases(rng: random.Random, tier: str):
 def _cases(rng: random.Random, tier: str):
     from .c04 import C_load_corpus  # noqa: F401
     out = [dict(c) for c in CORPUS] + _load_corpus()
-    for _ in range(2200 if tier == "quick" else 14000):
+    pol = lambda: rng.choice(["topological", "topological", "len_lex"])  # noqa: E731
+    for _ in range(1600 if tier == "quick" else 12000):
         g = rand_admg(rng, 0 if rng.random() < 0.05 else 2, 6 if rng.random() < 0.4 else 5)
-        out.append({"kind": "ci", "g": g, "k": rng.choice([None, None, 0, 1, 1, 2, 2, 3, 4]),
-                    "policy": rng.choice(["topological", "topological", "len_lex"]), "all": rng.random() < 0.35})
+        n = len(G.all_nodes(g))
+        k = rng.choice([None, None, 0, 1, 1, 2, 2, 3, 4])
+        if n >= 4 and rng.random() < 0.12:
+            k = rng.choice([n - 3, n - 2, n - 2, n - 1])          # limits around |V| - 2 (the largest set any pair can use)
+        out.append(with_names(rng, {"kind": "ci", "g": g, "k": k, "policy": pol(), "all": rng.random() < 0.35}))
+    # --- structured streams (sepG; tags shape / max_min_sep / n_min_seps / names count them)
+    # (a) the deep shapes of C04: a pair is separable or not depending on a collider opened 2-5 steps below, a fork 3-4 steps
+    #     above, a bidirected chain of 3-5 colliders, a fully conditioned district; the oracle enumerates every subset, so the
+    #     graphs stay <= 8 nodes (9-10 with a small limit)
+    k = 0
+    while k < (220 if tier == "quick" else 1200):
+        g, _, _, _, shape = structured_query(rng, only=("deep_path", "long_fork", "bidirected_chain", "married_parents", "sparse_big"))
+        n = len(G.all_nodes(g))
+        if n > 10 or (n > 7 and rng.random() < 0.75) or (n > 6 and tier == "quick" and rng.random() < 0.4):
+            continue
+        lim = rng.choice([None, None, None, 1, 2, 3, n - 2]) if n <= 8 else rng.choice([1, 2, 2])
+        out.append(with_names(rng, {"kind": "ci", "g": g, "k": lim, "policy": pol(), "all": rng.random() < 0.4,
+                                    "shape": shape.split(":")[0]}, 0.06, 0.06))
+        k += 1
+    # (b) minimum separators of size 3..6, unique or one of 2^r: limits just below, at and above the size, or none
+    for _ in range(64 if tier == "quick" else 300):
+        g, m = parallel_routes(rng)
+        out.append(with_names(rng, {"kind": "ci", "g": g, "k": rng.choice([m - 1, m, m, m + 1, None, None]), "policy": pol(),
+                                    "all": rng.random() < (0.6 if m <= 4 else 0.3), "shape": "parallel_routes"}, 0.06, 0.06))
+    # (c) disconnected graphs
+    for _ in range(120 if tier == "quick" else 500):
+        out.append(with_names(rng, {"kind": "ci", "g": disconnected_graph(rng), "k": rng.choice([None, None, 0, 1, 2]),
+                                    "policy": pol(), "all": rng.random() < 0.35, "shape": "disconnected"}, 0.06, 0.06))
     for _ in range(150 if tier == "quick" else 900):     # the retention policies have to choose between sets of different sizes
         g = policy_shape(rng)
         n = len(G.all_nodes(g))
@@ -176,8 +261,10 @@ def _call_ci(case):
 
     g = case["g"]
     fm = _forms(case)
-    graph = F.build_graph(g, fm["ctor"], seed=len(g["di"]) * 13 + len(g["bi"]))
-    fault = F.constructor_fault(g, graph, fm["ctor"])
+    try:
+        graph, fault = C4.build_graph(g, fm["ctor"], len(g["di"]) * 13 + len(g["bi"]), case.get("names"))
+    except Exception as e:  # noqa: BLE001 - every graph dict is a legal input of every constructor
+        return None, None, f"constructor {fm['ctor']} raised {type(e).__name__}"
     if fault:
         return None, None, fault
     kw = {}
@@ -193,16 +280,20 @@ def _call_ci(case):
         elif fm["return_all"] != "omitted":
             kw["return_all"] = False if fm["return_all"] == "false" else None
         if fm["verbose"] != "omitted":
-            kw["verbose"] = False if fm["verbose"] == "false" else None
+            kw["verbose"] = {"false": False, "none": None, "true": True}[fm["verbose"]]
         if case["k"] is not None or fm["max_conditions"] == "none":
             kw["max_conditions"] = case["k"]
-        if fm["call"] == "keyword":
-            res = get_conditional_independencies(graph=graph, **kw)
-        else:
-            res = get_conditional_independencies(graph, **kw)
+        import contextlib
+        import io
+
+        with contextlib.redirect_stderr(io.StringIO()):      # verbose=True draws a tqdm bar on stderr
+            if fm["call"] == "keyword":
+                res = get_conditional_independencies(graph=graph, **kw)
+            else:
+                res = get_conditional_independencies(graph, **kw)
         order = None
         if case["policy"] == "topological":
-            order = [G.vint(v) for v in graph.topological_sort()]
+            order = [_vint(v) for v in graph.topological_sort()]
         return res, order, None
     except Exception as e:  # noqa: BLE001 - whatever the class (NodeNotFound, AttributeError, ...): an outcome of the real code
         return None, None, type(e).__name__
@@ -210,21 +301,23 @@ def _call_ci(case):
 
 def _canon_row(case, left, right, conds, order):
     """what is compared with the model (see ASSUMPTIONS): exact sets only where the Python result is determined"""
-    if case["all"] and case["policy"] == "len_lex":
+    if case["all"] and case["policy"] == "len_lex" and case.get("names") != "cf":
+        # (counterfactual-variable nodes: _len_lex joins the BASE names, so two worlds of one base tie and the kept set is
+        # whichever comes first in hash order - sizes only)
         return [str(left), str(right), [str(c) for c in conds]]
     if case["all"] and case["policy"] == "topological":
         return [str(left), str(right), str(len(conds)), str(sum(order.index(c) for c in conds))]
     return [str(left), str(right), str(len(conds))]
 
 
-def _truth_table(g):
-    """for every unordered pair: the list of separating sets (sorted tuples), by the path oracle"""
+def _truth_table(g, k=None):
+    """for every unordered pair: the list of separating sets (sorted tuples) of size <= k, by the path oracle"""
     V = sorted(G.all_nodes(g))
     tab = {}
     for a, b in itt.combinations(V, 2):
         rest = [v for v in V if v not in (a, b)]
         seps = []
-        for r in range(len(rest) + 1):
+        for r in range(len(rest) + 1 if k is None else min(k, len(rest)) + 1):
             for Cs in itt.combinations(rest, r):
                 if O.d_separated(g, a, b, list(Cs)):
                     seps.append(Cs)
@@ -237,9 +330,13 @@ def run_python(case):
         return _run_powerset(case)
     g = case["g"]
     V = sorted(G.all_nodes(g))
+    C4._CUR["names"] = case.get("names")
     res, order, err = _call_ci(case)
     tags = {"kind": "ci", "n_nodes": len(V), "k": str(case["k"]), "policy": case["policy"], "all": case["all"],
-            "outcome": "err:" + err.split()[0] if err else "ok"}
+            "outcome": "err:" + err.split()[0] if err else "ok", "names": case.get("names", "plain"),
+            "shape": case.get("shape", "random"),
+            "k_vs_n": "none" if case["k"] is None else ("n-2" if case["k"] == len(V) - 2 else "n-3" if case["k"] == len(V) - 3
+                                                       else ">=n-1" if case["k"] >= len(V) - 1 else "small")}
     tags.update(F.tags(_forms(case)))
     acyclic = O.is_acyclic(g) and all(u != v for u, v in g["di"] + g["bi"])
     if err:
@@ -248,7 +345,7 @@ def run_python(case):
     rows = []
     listed = []
     for j in res:
-        left, right, conds = G.vint(j.left), G.vint(j.right), [G.vint(c) for c in j.conditions]
+        left, right, conds = _vint(j.left), _vint(j.right), [_vint(c) for c in j.conditions]
         listed.append((left, right, tuple(conds), j))
         rows.append(_canon_row(case, left, right, conds, order))
     out = ["ok", C.as_set(rows)]
@@ -256,16 +353,22 @@ def run_python(case):
     nontrivial = False
     if acyclic:
         k = case["k"]
-        tab = _truth_table(g)
+        tab = _truth_table(g, k)
         within = {p: [s for s in seps if k is None or len(s) <= k] for p, seps in tab.items()}
+        mins = {p: min(len(s) for s in seps) for p, seps in within.items() if seps}
+        tags["max_min_sep"] = max(mins.values(), default=-1)              # largest minimum separator (within the limit)
+        tags["n_min_seps"] = min(max((sum(1 for s in within[p] if len(s) == m) for p, m in mins.items()), default=0), 9)
+        tags["disconnected"] = _n_components(g) > 1
         seen = {}
         for left, right, conds, j in listed:
             p = (left, right)
             if not (left < right) or p not in tab:
                 fail = f"judgement ({left},{right}|{list(conds)}) is not an ordered pair of distinct nodes"
-            elif not j.is_canonical or list(conds) != sorted(set(conds)):
+            elif not C4._is_canonical(j) or list(conds) != sorted(set(conds)):
                 fail = f"judgement ({left},{right}|{list(conds)}) is not canonical"
-            elif not j.separated or tuple(conds) not in tab[p]:
+            elif set(conds) & {left, right} or not set(conds) <= set(V):
+                fail = f"listed judgement ({left},{right}|{list(conds)}) conditions on an endpoint or on a node that is not in the graph"
+            elif not j.separated or not O.d_separated(g, left, right, list(conds)):
                 fail = f"listed judgement ({left},{right}|{list(conds)}) is not a true separation"
             elif k is not None and len(conds) > k:
                 fail = f"listed judgement ({left},{right}|{list(conds)}) exceeds the size limit {k}"
@@ -285,6 +388,19 @@ def run_python(case):
         nontrivial = len(V) >= 3 and any(within.values()) and not all(within.values())
         tags["n_listed"] = min(len(listed), 8)
     return {"out": out, "fail": fail, "nontrivial": nontrivial, "tags": tags}
+
+
+def _n_components(g):
+    V = G.all_nodes(g)
+    comp = {v: v for v in V}
+
+    def find(v):
+        while comp[v] != v:
+            v = comp[v]
+        return v
+    for u, v in g["di"] + g["bi"]:
+        comp[find(u)] = find(v)
+    return len({find(v) for v in V})
 
 
 def _run_powerset(case):
@@ -352,7 +468,9 @@ def _model_topo_order(case):
     """the sums of the topological policy are computed by the harness with the real graph's order on both sides"""
     try:
         g = case["g"]
-        return [G.vint(v) for v in F.build_graph(g, _forms(case)["ctor"], seed=len(g["di"]) * 13 + len(g["bi"])).topological_sort()]
+        C4._CUR["names"] = case.get("names")
+        graph, _ = C4.build_graph(g, _forms(case)["ctor"], len(g["di"]) * 13 + len(g["bi"]), case.get("names"))
+        return [_vint(v) for v in graph.topological_sort()]
     except Exception:
         return []
 
